@@ -2,21 +2,53 @@
 L7 — interleaved semantics of threads sharing one `XmlContext` (C19).
 
 Atomic step = one operation on a shared container or slot (`in`, `[]`, `[]=`,
-`clear`, `append`, reading / writing `sys_modules`) — the granularity the GIL
-guarantees.  Everything a thread computes between two such operations
-(`XmlMetaBuilder.build`, walking `object.__subclasses__()`) is thread-local and
-is folded into the step that precedes it.  A thread's state names the shared
-operation it is about to perform.
+`clear`, reading / writing `sys_modules`, assigning `xsi_cache`) — the
+granularity the GIL guarantees.  A thread's state names the operation it is
+about to perform.  `self.xsi_cache` is a *reference*: the shared state holds a
+heap of dict objects and the number of the one currently published; an
+expression like `qname in self.xsi_cache` first reads the reference (at the end
+of the thread's previous step) and then operates on that object, even if
+another thread has published a different one in between.  `find_types` reads
+the reference twice, as the code does.
+
+`build_xsi_cache` (as repaired in 556b985) reads `len(sys.modules)`, builds the
+index in a *local* dict — modelled as one thread-local step per binding class,
+touching no shared state —, publishes it with one assignment to
+`self.xsi_cache` and then writes `self.sys_modules`.
+
+`reset()` (`cache.clear()`, `xsi_cache.clear()`, `sys_modules = 0`) is a third
+kind of thread; the positive theorems exclude it, counterexamples show why.
 -/
 import XsdataModel.Ctx.Spec
 
 namespace Xs.Ctx
 open Py
 
+abbrev Index := List (Str × List ClassId)
+
+/-- the shared state with `xsi_cache` as a reference into a heap of dict objects -/
+structure CState where
+  cache : List (ClassId × Meta)
+  /-- every dict object that was ever assigned to `self.xsi_cache`, by object number -/
+  heap : List Index
+  /-- `self.xsi_cache` -/
+  ref : Nat
+  sysModules : Nat
+  deriving DecidableEq, Repr
+
+def CState.ofState (s : State) : CState := ⟨s.cache, [s.xsi], 0, s.sysModules⟩
+
+/-- the dict object number `d` -/
+def CState.dict (s : CState) (d : Nat) : Index := (s.heap[d]?).getD []
+
+/-- what a sequential observer sees -/
+def CState.toState (s : CState) : State := ⟨s.cache, s.dict s.ref, s.sysModules⟩
+
 /-- what a thread was asked to do -/
 inductive Prog
   | build (c : ClassId) (pns : Option Str)
   | findTypes (q : Str)
+  | reset
   deriving DecidableEq, Repr
 
 inductive TState
@@ -28,16 +60,22 @@ inductive TState
   | bRead (c : ClassId)
   /-- `if len(sys.modules) == self.sys_modules: return` -/
   | xCheck (q : Str)
-  /-- `self.xsi_cache.clear()` -/
-  | xClear (q : Str)
-  /-- `self.xsi_cache[key].append(clazz)` for the head of `todo` -/
-  | xFill (q : Str) (todo : List (Str × ClassId))
-  /-- `self.sys_modules = len(sys.modules)` -/
+  /-- thread-local: the next binding class of `todo` goes into the local index `acc` -/
+  | xLocal (q : Str) (todo : List ClassId) (acc : Index)
+  /-- `self.xsi_cache = xsi_cache` -/
+  | xPublish (q : Str) (acc : Index)
+  /-- `self.sys_modules = sys_modules` -/
   | xStamp (q : Str)
-  /-- `if qname in self.xsi_cache` -/
-  | xContains (q : Str)
-  /-- `return self.xsi_cache[qname]` (a `defaultdict`: a missing key is inserted) -/
-  | xGet (q : Str)
+  /-- `if qname in self.xsi_cache`, the reference already read: object `d` -/
+  | xContains (q : Str) (d : Nat)
+  /-- `return self.xsi_cache[qname]` on object `d` (a `defaultdict`: a missing key is inserted) -/
+  | xGet (q : Str) (d : Nat)
+  /-- `self.cache.clear()` -/
+  | rCache
+  /-- `self.xsi_cache.clear()` on object `d` -/
+  | rXsi (d : Nat)
+  /-- `self.sys_modules = 0` -/
+  | rStamp
   | done (o : Out)
   deriving DecidableEq, Repr
 
@@ -45,13 +83,24 @@ inductive TState
 def Prog.start : Prog → TState
   | .build c p => .bCheck c p
   | .findTypes q => if isDataType q then .done (.gotTypes []) else .xCheck q
+  | .reset => .rCache
 
-def afterFill (q : Str) : List (Str × ClassId) → TState
-  | [] => .xStamp q
-  | todo => .xFill q todo
+/-- the binding models `build_xsi_cache` visits, in `get_subclasses(object)` order -/
+def bindingClasses (U : Universe) (n : Nat) : List ClassId := (subclassOrder U n).filter (isBinding U)
 
-/-- perform the pending shared operation, then run to the next one -/
-def stepT (U : Universe) (w : World) (s : State) : TState → State × TState
+/-- the loop body for one binding class: `if meta.target_qname: xsi_cache[...].append(clazz)` -/
+def localAdd (U : Universe) (acc : Index) (c : ClassId) : Index :=
+  match indexKey U c with
+  | some k => dictAppend acc k c
+  | none => acc
+
+def afterLocal (q : Str) (todo : List ClassId) (acc : Index) : TState :=
+  match todo with
+  | [] => .xPublish q acc
+  | _ => .xLocal q todo acc
+
+/-- perform the pending operation, then run to the next one -/
+def stepT (U : Universe) (w : World) (s : CState) : TState → CState × TState
   | .bCheck c p =>
     match s.cache.lookup c with
     | some _ => (s, .bRead c)
@@ -64,34 +113,25 @@ def stepT (U : Universe) (w : World) (s : State) : TState → State × TState
     match s.cache.lookup c with
     | some m => (s, .done (.gotMeta m))
     | none => (s, .done (.raised .index))
-  | .xCheck q => if w.mods + 1 = s.sysModules then (s, .xContains q) else (s, .xClear q)
-  | .xClear q => ({ s with xsi := [] }, afterFill q (indexEntries U w.loaded))
-  | .xFill q [] => (s, .xStamp q)
-  | .xFill q ((k, c) :: rest) => ({ s with xsi := dictAppend s.xsi k c }, afterFill q rest)
-  | .xStamp q => ({ s with sysModules := w.mods + 1 }, .xContains q)
-  | .xContains q =>
-    match s.xsi.lookup q with
-    | some _ => (s, .xGet q)
+  | .xCheck q =>
+    if w.mods + 1 = s.sysModules then (s, .xContains q s.ref)
+    else (s, afterLocal q (bindingClasses U w.loaded) [])
+  | .xLocal q [] acc => (s, .xPublish q acc)
+  | .xLocal q (c :: rest) acc => (s, afterLocal q rest (localAdd U acc c))
+  | .xPublish q acc => ({ s with heap := s.heap ++ [acc], ref := s.heap.length }, .xStamp q)
+  | .xStamp q => ({ s with sysModules := w.mods + 1 }, .xContains q s.ref)
+  | .xContains q d =>
+    match (s.dict d).lookup q with
+    | some _ => (s, .xGet q s.ref)
     | none => (s, .done (.gotTypes []))
-  | .xGet q =>
-    match s.xsi.lookup q with
+  | .xGet q d =>
+    match (s.dict d).lookup q with
     | some l => (s, .done (.gotTypes l))
-    | none => ({ s with xsi := s.xsi ++ [(q, [])] }, .done (.gotTypes []))
+    | none => ({ s with heap := s.heap.set d (s.dict d ++ [(q, [])]) }, .done (.gotTypes []))
+  | .rCache => ({ s with cache := [] }, .rXsi s.ref)
+  | .rXsi d => ({ s with heap := s.heap.set d [] }, .rStamp)
+  | .rStamp => ({ s with sysModules := 0 }, .done .done)
   | .done o => (s, .done o)
-
-/-- an upper bound on the number of shared operations the thread still has to
-perform (`n` = number of index entries a rebuild appends) -/
-def TState.remaining (n : Nat) : TState → Nat
-  | .bCheck _ _ => 3
-  | .bWrite _ _ => 2
-  | .bRead _ => 1
-  | .xCheck _ => n + 6
-  | .xClear _ => n + 5
-  | .xFill _ todo => todo.length + 4
-  | .xStamp _ => 3
-  | .xContains _ => 2
-  | .xGet _ => 1
-  | .done _ => 0
 
 structure Thread where
   prog : Prog
@@ -99,11 +139,12 @@ structure Thread where
   deriving DecidableEq, Repr
 
 structure Sys where
-  shared : State
+  shared : CState
   threads : List Thread
   deriving DecidableEq, Repr
 
-def Sys.start (s : State) (progs : List Prog) : Sys := ⟨s, progs.map fun p => ⟨p, p.start⟩⟩
+def Sys.start (s : State) (progs : List Prog) : Sys :=
+  ⟨CState.ofState s, progs.map fun p => ⟨p, p.start⟩⟩
 
 /-- let thread `i` perform one atomic step (no-op if it does not exist or is finished) -/
 def sched (U : Universe) (w : World) (sys : Sys) (i : Nat) : Sys :=
@@ -127,16 +168,40 @@ def TState.isB : TState → Bool
 /-- the thread is inside `build_xsi_cache` / `find_types` -/
 def TState.isX : TState → Bool
   | .xCheck _ => true
-  | .xClear _ => true
-  | .xFill _ _ => true
+  | .xLocal _ _ _ => true
+  | .xPublish _ _ => true
   | .xStamp _ => true
-  | .xContains _ => true
-  | .xGet _ => true
+  | .xContains _ _ => true
+  | .xGet _ _ => true
+  | _ => false
+
+/-- the thread is inside `reset` -/
+def TState.isR : TState → Bool
+  | .rCache => true
+  | .rXsi _ => true
+  | .rStamp => true
   | _ => false
 
 def TState.isDone : TState → Bool
   | .done _ => true
   | _ => false
+
+/-- an upper bound on the number of steps the thread still has to perform
+(`n` = number of binding classes a rebuild visits) -/
+def TState.remaining (n : Nat) : TState → Nat
+  | .bCheck _ _ => 3
+  | .bWrite _ _ => 2
+  | .bRead _ => 1
+  | .xCheck _ => n + 6
+  | .xLocal _ todo _ => todo.length + 5
+  | .xPublish _ _ => 4
+  | .xStamp _ => 3
+  | .xContains _ _ => 2
+  | .xGet _ _ => 1
+  | .rCache => 3
+  | .rXsi _ => 2
+  | .rStamp => 1
+  | .done _ => 0
 
 /-- after the prescribed schedule: let the threads finish one after the other -/
 def drainThread (U : Universe) (w : World) (i : Nat) : Nat → Sys → Sys
@@ -148,7 +213,7 @@ def drainThread (U : Universe) (w : World) (i : Nat) : Nat → Sys → Sys
 
 def drain (U : Universe) (w : World) (sys : Sys) : Sys :=
   (List.range sys.threads.length).foldl
-    (fun acc i => drainThread U w i ((indexEntries U w.loaded).length + 8) acc) sys
+    (fun acc i => drainThread U w i ((bindingClasses U w.loaded).length + 8) acc) sys
 
 def Sys.results (sys : Sys) : List (Option Out) :=
   sys.threads.map fun th =>
@@ -160,11 +225,18 @@ def Sys.results (sys : Sys) : List (Option Out) :=
 def progUses : List Prog → List Use
   | [] => []
   | .build c p :: rest => (c, p) :: progUses rest
-  | .findTypes _ :: rest => progUses rest
+  | _ :: rest => progUses rest
+
+/-- no thread calls `reset()` -/
+def noReset (progs : List Prog) : Prop := ∀ p ∈ progs, p ≠ Prog.reset
+
+instance (progs : List Prog) : Decidable (noReset progs) :=
+  inferInstanceAs (Decidable (∀ p ∈ progs, p ≠ Prog.reset))
 
 /-- what the thread returns when it runs alone on a fresh context -/
 def Prog.alone (U : Universe) (w : World) : Prog → Out
   | .build c p => outMeta (pureBuild U c p)
   | .findTypes q => .gotTypes (pureTypes U w q)
+  | .reset => .done
 
 end Xs.Ctx
